@@ -58,35 +58,42 @@ def aeropoint_symbolic(surfaces, meshes, external=None, rotational=False, circul
     return G
 
 
-def aerostruct_problem(surface, vals=None):
-    """One-surface aerostructural model wired as in the documentation / tests/integration_tests/test_aerostruct.py."""
+def aerostruct_problem(surface, vals=None, compressible=False, rotational=False):
+    """Aerostructural model wired as in the documentation / tests/integration_tests/test_aerostruct.py; `surface` may be
+    one surface dictionary or a list of them (one AerostructGeometry each, one AerostructPoint for all)."""
     import openmdao.api as om
     from openaerostruct.integration.aerostruct_groups import AerostructGeometry, AerostructPoint
     from openaerostruct.utils.constants import grav_constant
 
+    surfaces = surface if isinstance(surface, (list, tuple)) else [surface]
     vals = vals or {}
     prob = om.Problem(reports=False)
     ivc = om.IndepVarComp()
-    for n, v, u in (("v", 248.136, "m/s"), ("alpha", 5.0, "deg"), ("Mach_number", 0.84, None), ("re", 1.0e6, "1/m"), ("rho", 0.38, "kg/m**3"),
-                    ("CT", grav_constant * 17.0e-6, "1/s"), ("R", 11.165e6, "m"), ("W0", 0.4 * 3e5, "kg"), ("speed_of_sound", 295.4, "m/s"),
-                    ("load_factor", 1.0, None), ("empty_cg", np.zeros(3), "m")):
+    flow = [("v", 248.136, "m/s"), ("alpha", 5.0, "deg"), ("beta", 0.0, "deg"), ("Mach_number", 0.84, None), ("re", 1.0e6, "1/m"), ("rho", 0.38, "kg/m**3"),
+            ("CT", grav_constant * 17.0e-6, "1/s"), ("R", 11.165e6, "m"), ("W0", 0.4 * 3e5, "kg"), ("speed_of_sound", 295.4, "m/s"),
+            ("load_factor", 1.0, None), ("empty_cg", np.zeros(3), "m")]
+    if rotational:
+        flow += [("omega", np.zeros(3), "rad/s"), ("cg", np.zeros(3), "m")]
+    for n, v, u in flow:
         ivc.add_output(n, val=vals.get(n, v), units=u)
     prob.model.add_subsystem("prob_vars", ivc, promotes=["*"])
-    name = surface["name"]
-    prob.model.add_subsystem(name, AerostructGeometry(surface=surface))
     pt = "AS_point_0"
-    prob.model.add_subsystem(pt, AerostructPoint(surfaces=[surface]),
-                             promotes_inputs=["v", "alpha", "Mach_number", "re", "rho", "CT", "R", "W0", "speed_of_sound", "empty_cg", "load_factor"])
-    com = pt + "." + name + "_perf"
-    prob.model.connect(name + ".local_stiff_transformed", pt + ".coupled." + name + ".local_stiff_transformed")
-    prob.model.connect(name + ".nodes", pt + ".coupled." + name + ".nodes")
-    prob.model.connect(name + ".mesh", pt + ".coupled." + name + ".mesh")
-    prob.model.connect(name + ".radius", com + ".radius")
-    prob.model.connect(name + ".thickness", com + ".thickness")
-    prob.model.connect(name + ".nodes", com + ".nodes")
-    prob.model.connect(name + ".cg_location", pt + ".total_perf." + name + "_cg_location")
-    prob.model.connect(name + ".structural_mass", pt + ".total_perf." + name + "_structural_mass")
-    prob.model.connect(name + ".t_over_c", com + ".t_over_c")
+    for sf in surfaces:
+        prob.model.add_subsystem(sf["name"], AerostructGeometry(surface=sf))
+    prom = ["v", "alpha", "beta", "Mach_number", "re", "rho", "CT", "R", "W0", "speed_of_sound", "empty_cg", "load_factor"] + (["omega", "cg"] if rotational else [])
+    prob.model.add_subsystem(pt, AerostructPoint(surfaces=list(surfaces), compressible=compressible, rotational=rotational), promotes_inputs=prom)
+    for sf in surfaces:
+        name = sf["name"]
+        com = pt + "." + name + "_perf"
+        prob.model.connect(name + ".local_stiff_transformed", pt + ".coupled." + name + ".local_stiff_transformed")
+        prob.model.connect(name + ".nodes", pt + ".coupled." + name + ".nodes")
+        prob.model.connect(name + ".mesh", pt + ".coupled." + name + ".mesh")
+        prob.model.connect(name + ".radius", com + ".radius")
+        prob.model.connect(name + ".thickness", com + ".thickness")
+        prob.model.connect(name + ".nodes", com + ".nodes")
+        prob.model.connect(name + ".cg_location", pt + ".total_perf." + name + "_cg_location")
+        prob.model.connect(name + ".structural_mass", pt + ".total_perf." + name + "_structural_mass")
+        prob.model.connect(name + ".t_over_c", com + ".t_over_c")
     with warnings.catch_warnings():
         warnings.simplefilter("ignore")
         prob.setup()
@@ -94,12 +101,12 @@ def aerostruct_problem(surface, vals=None):
     return prob
 
 
-def aerostruct_symbolic(surface):
+def aerostruct_symbolic(surface, **kw):
     """GroupPipe over the real AerostructPoint (coupled group executed once in its own order; feedback connections and the
     outputs of the geometry group are independent symbols)."""
     from symoas.sym import bor, gt, lt
 
-    prob = aerostruct_problem(surface)
+    prob = aerostruct_problem(surface, **kw)
 
     def big_loads(ins):  # loads well above the 1e-6 N zeroing threshold of CreateRHS (the property's admissible range)
         return [bor(gt(x, 1e-6), lt(x, -1e-6)) for x in ins["total_loads"].ravel()]
